@@ -27,7 +27,7 @@ def handle (s : Net) (line : String) : Net × String :=
   match (line.splitOn " ").filter (· ≠ "") with
   | ["new", k, t] =>
     match k.toNat?, t.toNat? with
-    | some k, some t => ({ objs := [fresh k], now := t }, "ok")
+    | some k, some t => ({ olds := [], cur := fresh k, now := t }, "ok")
     | _, _ => (s, "bad-op")
   | ["poll", p, d] =>
     match p.toNat?, d.toNat? with
@@ -45,8 +45,7 @@ def handle (s : Net) (line : String) : Net × String :=
     match k.toNat? with
     | some k =>
       let r := s.setLimit k
-      let o := (r.objs.getLast?).getD (.unlimited 0 0)
-      (r, s!"ok {o.limiter.bucket} {o.limiter.last}")
+      (r, s!"ok {r.cur.limiter.bucket} {r.cur.limiter.last}")
     | none => (s, "bad-op")
   | _ => (s, "bad-op")
 
@@ -58,4 +57,4 @@ partial def loop (h : IO.FS.Stream) (s : Net) : IO Unit := do
   loop h s'
 
 def main : IO Unit := do
-  loop (← IO.getStdin) { objs := [.unlimited 0 0], now := 0 }
+  loop (← IO.getStdin) { olds := [], cur := .unlimited 0 0, now := 0 }
